@@ -23,13 +23,14 @@ import os
 import random
 import re
 import threading
+import time
 from concurrent.futures import ThreadPoolExecutor
 
 from . import known, tlc
 
 J = max(1, int(os.environ.get("VERIF_JOBS") or os.cpu_count() or 4))   # size of every process pool
-JVMS = max(1, J // 4)                                                    # TLC JVMs running side by side
-TW = min(4, J)                                                           # workers of a stage-1 TLC run
+JVMS = max(1, J // 2)                                                    # TLC JVMs running side by side
+TW = min(2, J)                                                           # workers of a stage-1 TLC run
 
 RULES = ["ExclusiveUse", "NotPooledWhileUsed", "NoDuplicate", "BlockBound", "OwnResponse", "ClosedPoolOutcome",
          "ClosedAndDroppedLeavesNothing"]
@@ -89,21 +90,26 @@ def _stage1_plans(quick):
     plans = []
     live_ok = SAFETY + "INVARIANT Inv_NoHang\nPROPERTY EventuallyQuiescent\n"
     live_d8 = SAFETY + "INVARIANT Inv_HangOnlyD8\nPROPERTY QuiescentOrD8\n"
-    for m in (1, 2):
-        for block in (True, False):
-            for closer in (False, True):
-                stream = (m == 2) != closer     # both response modes appear under every (block, closer)
-                kw = dict(nt=2, closer=closer, m=m, block=block, stream=stream,
-                          reqs=1 if closer else 2,
-                          outcomes=("ok", "okclose", "fail") if (closer or (m == 1 and block)) else ("ok", "fail"))
-                d8 = closer and block
-                plans.append((f"as-is m={m} block={block} closer={closer} stream={stream}", kw,
-                              live_d8 if d8 else live_ok, []))
+    if quick:
+        # one of each kind on the smallest constants: no closer / closer x block
+        grid = [(1, True, False, False, 2, ("ok", "okclose", "fail")), (2, False, False, True, 1, ("ok", "okclose", "fail")),
+                (1, True, True, True, 1, ("ok", "okclose", "fail")), (1, False, True, False, 1, ("ok", "fail"))]
+    else:
+        grid = []
+        for m in (1, 2):
+            for block in (True, False):
+                for closer in (False, True):
+                    grid.append((m, block, closer, (m == 2) != closer, 1 if closer else 2,
+                                 ("ok", "okclose", "fail") if (closer or (m == 1 and block)) else ("ok", "fail")))
+    for m, block, closer, stream, reqs, outcomes in grid:
+        kw = dict(nt=2, closer=closer, m=m, block=block, stream=stream, reqs=reqs, outcomes=outcomes)
+        plans.append((f"as-is m={m} block={block} closer={closer} stream={stream}", kw,
+                      live_d8 if (closer and block) else live_ok, []))
     # the hang of D8 is reproduced at design level, and the proposed repair removes it
     d8kw = dict(nt=2, closer=True, m=1, block=True, reqs=1, outcomes=("ok", "fail"))
     plans.append(("D8 as-is: EventuallyQuiescent must FAIL", d8kw, "PROPERTY EventuallyQuiescent\n", ["TemporalProperty"]))
-    plans.append(("D8 repaired (WakeOnClose)", dict(d8kw, repairs=("WakeOnClose",)), live_ok, []))
     if not quick:
+        plans.append(("D8 repaired (WakeOnClose)", dict(d8kw, repairs=("WakeOnClose",)), live_ok, []))
         plans.append(("D8 repaired (WakeOnClose) m=2 stream", dict(d8kw, m=2, stream=True, repairs=("WakeOnClose",)), live_ok, []))
         # ... but the sentinel repair is NOT sufficient: with two waiters on a maxsize=1 pool a late put into the
         # orphaned queue prevents the sentinel from being handed on and the second waiter still hangs
@@ -117,6 +123,9 @@ def _stage1_plans(quick):
                   ["Inv_ExclusiveUse", "Inv_NotPooledWhileUsed", "Inv_NoDuplicate", "Inv_OwnResponse"]))
     plans.append(("dev NoClearConn", dict(nt=2, m=2, block=False, reqs=2, stream=True, outcomes=("ok",), dev=("NoClearConn",)),
                   SAFETY, ["Inv_ExclusiveUse", "Inv_NotPooledWhileUsed", "Inv_NoDuplicate", "Inv_OwnResponse"]))
+    # a checkout that reads the queue reference by a statement of its own hangs OUTSIDE the recorded D8 class
+    plans.append(("dev LoadOnce", dict(nt=2, closer=True, m=1, block=True, reqs=1, outcomes=("ok",), dev=("LoadOnce",)),
+                  SAFETY + "INVARIANT Inv_HangOnlyD8\n", ["Inv_HangOnlyD8"]))
     plans.append(("dev NoBlockRaise", dict(nt=2, m=1, block=True, reqs=1, outcomes=("ok",), dev=("NoBlockRaise",)), SAFETY,
                   ["Inv_BlockBound", "Inv_ClosedPoolOutcome"]))
     if not quick:
@@ -154,7 +163,7 @@ def _coverage(out):
 def _run_plan(plan):
     name, kw, props, expect = plan
     r = tlc.run("MC_PoolConc", mc_cfg(props=props, **kw), workers=TW, heap="3g", timeout=3000,
-                expect_fail=True, coverage=not expect and "as-is" in name)
+                expect_fail=True, coverage=not expect and "as-is" in name and kw.get("nt") == 2 and kw.get("m") == 1 and kw.get("block"))
     if r.error and "Temporal propert" in r.error:      # TLC 1.8 wording: "Temporal property X was violated."
         r.violated.append("TemporalProperty")
         r.error = None
@@ -305,23 +314,31 @@ def _children(prefix_len, r, bound):
 
 def _dfs_task(args):
     """Explore the subtrees below `prefixes` (bounded preemptions) on the real code; validate; compact."""
-    ci, cfg, prefixes, bound, limit, dense = args
+    ci, cfg, prefixes, bound, limit, dense, nrand, seed = args
     drv = _prep(dense)
     from . import sched
-    stack = [list(p) for p in reversed(prefixes)]
+    stack = [p if p is None else list(p) for p in reversed(prefixes)]
     runs = []
     truncated = 0
+    rng = random.Random(seed)
+    for _ in range(nrand):       # seeded deep schedules of this configuration ride along (one TLC batch per task)
+        r = drv.one_run(cfg, sched.RandomChooser(rng, rng.choice([0.15, 0.35, 0.6])))
+        runs.append(_summ(cfg, r, "random"))
+    limit += nrand
     while stack:
         if len(runs) >= limit:
             truncated = len(stack)
             break
         p = stack.pop()
+        expand = p is not None
+        p = p or []
         ch = sched.PrefixChooser(p)
         r = drv.one_run(cfg, ch)
         if ch.diverged:
             raise tlc.MachineryError(f"C02 DFS: schedule prefix {p} is not reproducible (non-determinism in the harness)")
         runs.append(_summ(cfg, r, "dfs"))
-        stack.extend(_children(len(p), r, bound))
+        if expand:
+            stack.extend(_children(len(p), r, bound))
     return {"runs": _finish(ci, runs, dense), "truncated": truncated}
 
 
@@ -329,31 +346,19 @@ def _root_task(args):
     ci, cfg, bound, dense = args
     drv = _prep(dense)
     from . import sched
-    r = drv.one_run(cfg, sched.PrefixChooser([]))
-    return {"runs": _finish(ci, [_summ(cfg, r, "dfs")], dense), "children": _children(0, r, bound),
-            "points": _PREPARED["points"]}
+    r = drv.one_run(cfg, sched.PrefixChooser([]))      # only to find the first-level branches; re-run (and validated)
+    return {"children": _children(0, r, bound), "points": _PREPARED["points"], "fallback": drv.fallbacks()}
 
 
-def _random_task(args):
-    ci, cfg, seed, n, dense = args
-    drv = _prep(dense)
-    from . import sched
-    rng = random.Random(seed)
-    runs = []
-    for _ in range(n):
-        r = drv.one_run(cfg, sched.RandomChooser(rng, rng.choice([0.15, 0.35, 0.6])))
-        runs.append(_summ(cfg, r, "random"))
-    return {"runs": _finish(ci, runs, dense), "truncated": 0}
-
-
-def _dfs_jobs(ci, cfg, children, bound, budget, dense, chunk=1200):
-    """Partition the root's child subtrees into tasks of about `chunk` schedules; the per-configuration
-    budget is shared evenly (a task that hits its share reports how many subtrees it left unexplored)."""
-    if not children:
-        return []
-    n = max(1, min(len(children), -(-budget // chunk)))
+def _dfs_jobs(ci, cfg, children, bound, budget, dense, nrand, seed, chunk=1200):
+    """Partition the root schedule and its child subtrees into tasks of about `chunk` schedules; the
+    per-configuration budget is shared evenly (a task that hits its share reports how many subtrees it left
+    unexplored); the configuration's random schedules are spread over the same tasks."""
+    prefixes = [None] + list(children)       # None: the root schedule itself (its branches are the other entries)
+    n = max(1, min(len(prefixes), -(-budget // chunk)))
     per = max(20, budget // n)
-    return [(ci, cfg, children[j::n], bound, per, dense) for j in range(n)]
+    return [(ci, cfg, prefixes[j::n], bound, per, dense, nrand // n + (1 if j < nrand % n else 0), seed * 131 + j)
+            for j in range(n)]
 
 
 CRITICAL = ("test", "load", "qget", "qput", "swap")
@@ -515,7 +520,7 @@ def run(rep):
         "random schedules are unbounded in preemptions",
         "TLC 1.8 and CPython 3.12 sys.monitoring are trusted"]
     bound = 2 if quick else 3
-    budget = 2500 if quick else 5000         # DFS schedules per configuration
+    budget = 700 if quick else 5000          # DFS schedules per configuration
     cfgs = configurations(quick, rep.seed)
     recs = []
     trunc = 0
@@ -535,6 +540,18 @@ def run(rep):
             th.start()
         else:
             rep.extra["stage1_skipped"] = True
+        # stage 3: DFS roots -> subtree tasks, random deep schedules (each task validates its own traces: stage 4)
+        roots = pool.map(_root_task, [(ci, c, bound, False) for ci, c in enumerate(cfgs)])
+        points = roots[0]["points"]
+        rep.extra["preemption_points"] = points
+        for fb in roots[0]["fallback"]:
+            rep.drift.append(f"preemption points not located by pattern; dense fallback used ({fb})")
+        nrand = 24 if quick else 600
+        tasks = []
+        for ci, (c, root) in enumerate(zip(cfgs, roots)):
+            tasks += _dfs_jobs(ci, c, root["children"], bound, budget, False, nrand, rep.seed * 100003 + ci,
+                               chunk=700 if quick else 1200)
+        dfs_results = pool.imap_unordered(_dfs_task, tasks)      # runs while TLC emits the orderings
         # stage 2: orderings emitted by TLC (2 threads x 1 request, with / without closer)
         ekws = [dict(nt=2, closer=closer, m=1, block=block, reqs=1, stream=False, outcomes=("ok", "fail"))
                 for closer in (False, True) for block in (True, False)]
@@ -552,31 +569,17 @@ def run(rep):
                 raise tlc.MachineryError(f"stage 2: TLC emitted no ordering for {kw}")
             n_emitted += n_all
             n_classes += len(classes)
-            cap = 250 if quick else 4000
+            cap = 4000        # i.e. every emitted class of these small configurations is replayed
             sel = classes if len(classes) <= cap else rng.sample(classes, cap)
             n_selected += len(sel)
             cfg = dict(maxsize=kw["m"], block=kw["block"], closer=kw["closer"], stream=kw["stream"], nthreads=kw["nt"],
                        reqs=kw["reqs"], script={}, retries=1)
-            for j in range(0, len(sel), 125):
-                djobs.append((-1, cfg, sel[j:j + 125]))
-        # stage 3: DFS roots -> subtree tasks, random deep schedules (each task validates its own traces: stage 4)
-        roots = pool.map(_root_task, [(ci, c, bound, False) for ci, c in enumerate(cfgs)])
-        points = roots[0]["points"]
-        rep.extra["preemption_points"] = points
-        kinds = [k for d in points.values() for k in d.values()]
-        if "swap" not in kinds or sum(1 for k in kinds if k in ("test", "load")) < 4:
-            raise tlc.MachineryError(f"AST selection found too few shared-state lines: {points}")
-        tasks = []
-        for ci, (c, root) in enumerate(zip(cfgs, roots)):
-            recs.extend(root["runs"])
-            tasks += _dfs_jobs(ci, c, root["children"], bound, budget, False)
-        nrand = 40 if quick else 600
-        rtasks = [(ci, c, rep.seed * 100003 + ci, nrand, False) for ci, c in enumerate(cfgs)]
-        for out in pool.imap_unordered(_dfs_task, tasks):
+            step = 260 if quick else 125
+            for j in range(0, len(sel), step):
+                djobs.append((-1, cfg, sel[j:j + step]))
+        for out in dfs_results:
             recs.extend(out["runs"])
             trunc += out["truncated"]
-        for out in pool.imap_unordered(_random_task, rtasks):
-            recs.extend(out["runs"])
         for out in pool.imap_unordered(_directed_task, djobs):
             recs.extend(out["runs"])
         if th.ident is not None:
@@ -588,13 +591,10 @@ def run(rep):
             rep.extra["preemption_points_dense"] = droots[0]["points"]
             dtasks = []
             for (ci, c), root in zip(dcfgs, droots):
-                recs.extend(root["runs"])
-                dtasks += _dfs_jobs(ci, c, root["children"], 2, 2000, True)
+                dtasks += _dfs_jobs(ci, c, root["children"], 2, 2000, True, 150, rep.seed * 7 + ci)
             for out in pool.imap_unordered(_dfs_task, dtasks):
                 recs.extend(out["runs"])
                 trunc += out["truncated"]
-            for out in pool.imap_unordered(_random_task, [(ci, c, rep.seed * 7 + ci, 150, True) for ci, c in dcfgs]):
-                recs.extend(out["runs"])
     if "error" in s1:
         raise s1["error"]
     recs.sort(key=lambda r: (r["dense"], r["ci"], r["kind"], r["dec"]))       # deterministic order whatever the pool did
@@ -629,6 +629,7 @@ def run(rep):
         if r["ordering"]:
             rep.sample({"model_ordering": r["ordering"], "realised": not r.get("mismatch")}, cap=4)
     rep.exhaustive = trunc == 0
+    rep.extra["c02_own_wall_s"] = round(time.time() - rep.t0, 1)
     if rep.extra.get("stage1_skipped"):
         rep.states = rep.transitions = 0
         rep.assumptions.append("STAGE 1 WAS SKIPPED (C02_SKIP_STAGE1=1): this run is not a complete check")
